@@ -4,7 +4,7 @@
 (* TxtarWrite): a snapshot root that contains the target directory four    *)
 (* levels down (so that a name of up to four ".." stays observable), decoy *)
 (* files and directories named like the entries ("a", "b/a") at every      *)
-(* level above the target, and three populations of the target itself.     *)
+(* level above the target, and four populations of the target itself (one with symbolic links).     *)
 (* The Go driver materialises exactly these populations (they are emitted  *)
 (* by TLC, not re-typed in Go).                                            *)
 (***************************************************************************)
@@ -17,7 +17,7 @@ INSTANCE TxtarWrite WITH SegEmpty <- "", SegDot <- ".", SegDotDot <- "..", NoDat
 Dir == <<"w", "v", "u", "t">>           \* the directory handed to Write
 Old == "o"                               \* data token of every pre-existing file
 
-PopNames == {"empty", "populated", "fresh"}
+PopNames == {"empty", "populated", "fresh", "linked"}
 
 Prefixes(p, k) == {SubSeq(p, 1, j) : j \in 0..k}
 DecoyDirs(levels)  == {Append(l, "b") : l \in levels}
@@ -28,11 +28,17 @@ FsOf(dirs, files) == [p \in dirs \cup files |-> IF p \in dirs THEN DirNode ELSE 
 \* "empty":     dir exists and is empty
 \* "populated": dir holds a (file), b/ (directory), b/a (file)
 \* "fresh":     neither dir nor its parent exist yet (Write creates them)
+\* "linked":    populated, with symbolic links leading out of dir at a and b/a
 InitFS(pop) ==
   CASE pop = "empty" ->
          FsOf(Prefixes(Dir, 4) \cup DecoyDirs(Prefixes(Dir, 3)), DecoyFiles(Prefixes(Dir, 3)))
     [] pop = "populated" ->
          FsOf(Prefixes(Dir, 4) \cup DecoyDirs(Prefixes(Dir, 4)), DecoyFiles(Prefixes(Dir, 4)))
+    [] pop = "linked" ->      \* as "populated", but a and b/a are symbolic links that lead out of dir: a -> ../la does not
+                              \* exist (dangling), b/a -> ../../a is the decoy file one level above dir
+         LET base == FsOf(Prefixes(Dir, 4) \cup DecoyDirs(Prefixes(Dir, 4)), DecoyFiles(Prefixes(Dir, 4))) IN
+         [p \in DOMAIN base |-> IF p = Append(Dir, "a") THEN LinkNode("../la")
+                                ELSE IF p = Dir \o <<"b", "a">> THEN LinkNode("../../a") ELSE base[p]]
     [] pop = "fresh" ->
          FsOf(Prefixes(Dir, 2) \cup DecoyDirs(Prefixes(Dir, 2)), DecoyFiles(Prefixes(Dir, 2)))
 
